@@ -37,7 +37,7 @@ class C15(Prop):
     def harness(self, ctx):
         env = build_bridge(ctx)
         obs = {}
-        for name in ("C15Conn", "C15Bridge", "C15Route", "C15Idle"):
+        for name in ("C15Conn", "C15Bridge", "C15Route", "C15Idle", "C15WriteThenClose"):
             rc, out, p, dt = C.go_test_overlay(ctx.work, "./utils/tcpbridge/connection/", "TestVerif%s$" % name, OVERLAY, name + ".jsonl", ctx.seed, ctx.tier, timeout=1800, extra_env=env)
             rows = C.read_jsonl(p)
             if rc != 0 or not rows:
@@ -61,6 +61,13 @@ class C15(Prop):
                         "websocket upgrade on" if r["upgrade"] else "plain request to", r["path"], r.get("tcp_connections"), r.get("handshake")), rp))
                 elif len(passed) != 1 or r["path"] not in passed[0]:
                     res.append(("route:passthrough-altered", "the pass-through handler saw %s for %r" % (passed, r["path"]), rp))
+        for r in obs.get("C15WriteThenClose", []):
+            rp = {"driver": "TestVerifC15WriteThenClose: TCP client <-> tcp-bridge-frontend <=ws=> tcp-bridge-backend <-> TCP server; the writer writes 4 MiB and closes at once, the reader is slow", "observed": r}
+            if r.get("err"):
+                res.append(("bridge-connect-error", r["err"], rp))
+            elif r.get("received") != r.get("sent") or r.get("received_sum") != r.get("sent_sum") or r.get("read_err"):
+                res.append(("write-then-close:stream-cut-or-changed", "%s: the reader got %s of %s bytes (%s) although the writer had written everything before closing" % (
+                    r["direction"], r.get("received"), r.get("sent"), r.get("read_err") or ("content differs" if r.get("received") == r.get("sent") else "clean end of stream")), rp))
         for r in obs.get("C15Idle", []):
             rp = {"driver": "TestVerifC15Idle: TCP client <-> tcp-bridge-frontend <=ws=> tcp-bridge-backend <-> TCP server, one direction silent for %s ms" % r.get("gap_ms"), "observed": r}
             if r.get("err"):
